@@ -354,6 +354,21 @@ func ruleFragments(c *Ctx, rule string, shorts ...string) {
 				}
 			}
 		}
+		if ifi == nil && isPrefix != nil {
+			// the flag drives the loop that gathers the fragments (for more := true; more; { buff, more, err = ReadLine() ... }):
+			// a phi that takes it over the back edge is what the loop tests
+			for _, r := range *isPrefix.Referrers() {
+				phi, ok := r.(*ssa.Phi)
+				if !ok {
+					continue
+				}
+				for _, rr := range *phi.Referrers() {
+					if x, ok := rr.(*ssa.If); ok {
+						ifi = x
+					}
+				}
+			}
+		}
 		if ifi == nil {
 			c.bad(rule, key+"/isPrefix", call.Pos(), "isPrefix is not tested: a physical line longer than bufio's buffer is classified fragment by fragment")
 			continue
@@ -418,6 +433,34 @@ func ruleFragments(c *Ctx, rule string, shorts ...string) {
 		// (e) the accumulator carries the appended fragment around the loop
 		if app != nil {
 			acc, ok := app.Call.Args[0].(*ssa.Phi)
+			if ok && acc.Block() != call.Block() {
+				// the test sits at the head of an inner loop that gathers the fragments and the read in its
+				// body: the accumulator is that loop's phi and takes the append result over its back edge
+				var inner *ssaLoop
+				for _, l := range naturalLoops(call.Parent()) {
+					if l.body[call.Block()] && (inner == nil || len(l.body) < len(inner.body)) {
+						inner = l
+					}
+				}
+				if inner != nil && acc.Block() == inner.head {
+					carried, other := false, false
+					for _, lf := range headerLeaves(inner, acc) {
+						switch lf.v {
+						case ssa.Value(app):
+							carried = true
+						case ssa.Value(acc):
+						default:
+							other = true
+						}
+					}
+					if carried && !other {
+						c.ok(rule, key+"/accumulate", app.Pos(), "the accumulator phi of the gathering loop takes the append result over the back edge")
+					} else {
+						c.bad(rule, key+"/accumulate", app.Pos(), "over the back edge of the loop that gathers the fragments the accumulator does not carry the appended fragment: earlier fragments of a long line are lost")
+					}
+					continue
+				}
+			}
 			if !ok || acc.Block() != call.Block() {
 				c.und(rule, key+"/accumulate", app.Pos(), "the accumulator is not a loop-carried local; idiom not understood")
 				continue
